@@ -45,3 +45,47 @@ theorem rotr24_eq (x : BitVec 32) : x.rotateRight 24 = x.rotateLeft 8 := by bv_d
 theorem rotr25_eq (x : BitVec 32) : x.rotateRight 25 = x.rotateLeft 7 := by bv_decide
 
 end CC.Simd
+
+/-! ### projections of `Mach.ref` (cheap `rfl` lemmas; use these instead of unfolding `Mach.ref`) -/
+namespace CC.Simd
+theorem ref_add32 : Mach.ref.add32 = (zip32 (· + ·)) := rfl
+theorem ref_xor128 : Mach.ref.xor128 = ((· ^^^ ·)) := rfl
+theorem ref_rotr32 : Mach.ref.rotr32 = (fun k => map32 (·.rotateRight k)) := rfl
+theorem ref_shuf1230 : Mach.ref.shuf1230 = (shuf1230_32) := rfl
+theorem ref_shuf2301 : Mach.ref.shuf2301 = (shuf2301_32) := rfl
+theorem ref_shuf3012 : Mach.ref.shuf3012 = (shuf3012_32) := rfl
+theorem ref_vec32 : Mach.ref.vec32 = (pack32) := rfl
+theorem ref_extract32 : Mach.ref.extract32 = (lane32) := rfl
+theorem ref_insert32 : Mach.ref.insert32 = (CC.Simd.insert32) := rfl
+theorem ref_readLe32x4 : Mach.ref.readLe32x4 = (fun bs => ofLeBytes 128 (bs.take 16)) := rfl
+theorem ref_writeLe32x4 : Mach.ref.writeLe32x4 = (fun v => toLeBytes v 16) := rfl
+theorem ref_writeBe32x4 : Mach.ref.writeBe32x4 = (fun v => toBe32 (lane32 v 0) ++ toBe32 (lane32 v 1) ++ toBe32 (lane32 v 2) ++ toBe32 (lane32 v 3)) := rfl
+theorem ref_add64 : Mach.ref.add64 = (zip64 (· + ·)) := rfl
+theorem ref_vec64 : Mach.ref.vec64 = (pack64) := rfl
+theorem ref_fromLanes512 : Mach.ref.fromLanes512 = (pack512) := rfl
+theorem ref_toLanes512 : Mach.ref.toLanes512 = (fun v => (q128 v 0, q128 v 1, q128 v 2, q128 v 3)) := rfl
+theorem ref_add32x16 : Mach.ref.add32x16 = (zip512 (zip32 (· + ·))) := rfl
+theorem ref_add64x8 : Mach.ref.add64x8 = (zip512 (zip64 (· + ·))) := rfl
+theorem ref_xor512 : Mach.ref.xor512 = ((· ^^^ ·)) := rfl
+theorem ref_rotr32x16 : Mach.ref.rotr32x16 = (fun k => map512 (map32 (·.rotateRight k))) := rfl
+theorem ref_shufLane1230 : Mach.ref.shufLane1230 = (map512 shuf1230_32) := rfl
+theorem ref_shufLane2301 : Mach.ref.shufLane2301 = (map512 shuf2301_32) := rfl
+theorem ref_shufLane3012 : Mach.ref.shufLane3012 = (map512 shuf3012_32) := rfl
+theorem ref_transpose4 : Mach.ref.transpose4 = (transpose4_512) := rfl
+theorem ref_writeLe32x16 : Mach.ref.writeLe32x16 = (fun v => toLeBytes v 64) := rfl
+theorem ref_vec64x4 : Mach.ref.vec64x4 = (pack64x4) := rfl
+theorem ref_add64x4 : Mach.ref.add64x4 = (zip256 (zip64 (· + ·))) := rfl
+theorem ref_xor256 : Mach.ref.xor256 = ((· ^^^ ·)) := rfl
+theorem ref_rotr64x4 : Mach.ref.rotr64x4 = (fun k => map256 (map64 (·.rotateRight k))) := rfl
+theorem ref_shuf1230q : Mach.ref.shuf1230q = (shuf1230_64) := rfl
+theorem ref_shuf2301q : Mach.ref.shuf2301q = (shuf2301_64) := rfl
+theorem ref_shuf3012q : Mach.ref.shuf3012q = (shuf3012_64) := rfl
+theorem ref_writeBe64x4 : Mach.ref.writeBe64x4 = (fun v => toBe64 (w64 v 0) ++ toBe64 (w64 v 1) ++ toBe64 (w64 v 2) ++ toBe64 (w64 v 3)) := rfl
+theorem ref_swap128 : Mach.ref.swap128 = (swapBits) := rfl
+theorem ref_vzip256 : Mach.ref.vzip256 = (pack256) := rfl
+theorem ref_extract256 : Mach.ref.extract256 = (fun v i => if i = 0 then lo128 v else hi128 v) := rfl
+theorem ref_not256 : Mach.ref.not256 = (fun v => ~~~v) := rfl
+theorem ref_and256 : Mach.ref.and256 = ((· &&& ·)) := rfl
+theorem ref_or256 : Mach.ref.or256 = ((· ||| ·)) := rfl
+theorem ref_andnot256 : Mach.ref.andnot256 = (fun a b => ~~~a &&& b) := rfl
+end CC.Simd
